@@ -17,7 +17,7 @@ PROP = dict(
         "the per-algorithm theorems for VnBest/VnFirst/FM/KL/ArcSwap are about the models of C14/C07/C15/C05 and are tied to the code by "
         "those checks; this check itself runs the implementation only (panic / hang / length / id bound)",
         "the harness generates valid input partitions (every id from 0 to the maximum used) and computes the id bound",
-        "hang = no answer within the 30 s watchdog",
+        "hang = no answer within the 90 s watchdog",
     ],
     assumptions=[
         "usage contract as stated in the property: valid input partition, matching lengths, non-negative weights, symmetric graphs "
